@@ -4,23 +4,25 @@ with the confirmation line (my own re-run of make check + demo in the scratch wo
 trial of the current checks (tools/try_mutation2.sh on a scratch worktree at /repo's HEAD)."""
 import glob, json, os, re, shutil, sys
 SLUG = json.load(open(sys.argv[1]))          # {"C01:m1": ["slug", "note"], ...}
+BASE = sys.argv[2] if len(sys.argv) > 2 else "/tmp/mut2"
+ROUND = int(sys.argv[3]) if len(sys.argv) > 3 else 2
 confirm = {}
-for f in glob.glob("/tmp/mut2/C??.result"):
+for f in glob.glob(BASE + "/C??.result"):
     for l in open(f):
-        m = re.match(r"CONFIRM /tmp/mut2/(C\d\d)/out/(m\d): (.*)", l)
+        m = re.match(r"CONFIRM " + BASE + "/(C\d\d)/out/(m\d): (.*)", l)
         if m:
             confirm[(m.group(1), m.group(2))] = m.group(3).strip()
 final = {}
-for f in glob.glob("/tmp/mut2/final_*.result"):
+for f in glob.glob(BASE + "/final_*.result"):
     for l in open(f):
-        m = re.match(r"TRY2 /tmp/mut2/(C\d\d)/out/(m\d)/\S+ (C\d\d) seed=0 exit=(\d+) keys:(.*?)\| (.*)", l)
+        m = re.match(r"TRY2 " + BASE + "/(C\d\d)/out/(m\d)/\S+ (C\d\d) seed=0 exit=(\d+) keys:(.*?)\| (.*)", l)
         if m:
             if final.get((m.group(1), m.group(2)), {}).get("exit") == 1 and int(m.group(4)) != 1:
                 continue
             final[(m.group(1), m.group(2))] = dict(check=m.group(3), exit=int(m.group(4)), keys=re.sub(r"\s+", " ", m.group(5)).strip(), summary=m.group(6).strip())
 for key, (slug, note) in sorted(SLUG.items()):
     pid, mn = key.split(":")
-    src = "/tmp/mut2/%s/out/%s" % (pid, mn)
+    src = BASE + "/%s/out/%s" % (pid, mn)
     if slug is None:
         print("skip", key, note)
         continue
@@ -32,14 +34,14 @@ for key, (slug, note) in sorted(SLUG.items()):
         if os.path.isfile(p) and os.path.getsize(p) < 300000 and not fn.endswith((".o", ".a")) and fn not in ("demo", "a.out"):
             shutil.copy(p, os.path.join(dst, fn))
     # helper headers the demos share (one level up)
-    for fn in os.listdir("/tmp/mut2/%s/out" % pid):
-        p = os.path.join("/tmp/mut2/%s/out" % pid, fn)
+    for fn in os.listdir(BASE + "/%s/out" % pid):
+        p = os.path.join(BASE + "/%s/out" % pid, fn)
         if os.path.isfile(p) and fn.endswith(".h"):
             shutil.copy(p, os.path.join(dst, fn))
     readme = open(os.path.join(src, "README.md")).read() if os.path.exists(os.path.join(src, "README.md")) else ""
     fin = final.get((pid, mn), {})
     meta = {
-        "id": sid, "breaks_property": pid, "round": 2,
+        "id": sid, "breaks_property": pid, "round": ROUND,
         "source": "independent sub-agent given only the property text and a scratch worktree (asked for three changes in different functions)",
         "needs_to_manifest": readme[:1500],
         "confirmed_by_me": confirm.get((pid, mn), ""),
